@@ -85,9 +85,12 @@ func TestVerifC18Raft(t *testing.T) {
 		prog := verifc18.GenProg(rt, verifc18.GenOpts{Backend: "raft", Handles: 2, AllowRestore: true, MaxOps: 12})
 		c.Op(prog)
 		verifc18.Current.Store(prog)
-		verifc18.Progress.Add(1)
-		h := verifc18.Run(context.Background(), verifC18RaftTarget(leader, follower, serialize), prog)
-		verifc18.Progress.Add(1)
+		var h *verifc18.History
+		func() {
+			verifc18.Progress.Add(1)
+			defer verifc18.Progress.Add(1)
+			h = verifc18.Run(context.Background(), verifC18RaftTarget(leader, follower, serialize), prog)
+		}()
 		verifc18.Judge(rt, rec, c, prog, h, opts)
 		c.Done()
 	})
